@@ -224,7 +224,8 @@ pub fn s1(property: &str, scenario: &str, seed: u64, o: &S1Opts) -> Plan {
     let timeout_ms = 2000u64.max(disruption_ms * 2 + 2 * max_lat / 1000 + 1200);
     horizon += ms(disruption_ms);
 
-    let desync_interval = if o.desync { c.range(&[45], 1, 12) as u32 } else { 0 };
+    // desync detection is part of the swarm: on in every run that asks for it and in a quarter of the others
+    let desync_interval = if o.desync || c.chance(&[52], 250_000) { c.range(&[45], 1, 12) as u32 } else { 0 };
 
     Plan {
         property: property.to_owned(),
@@ -413,7 +414,7 @@ pub fn generate(property: &str, tier: &str, seed: u64, index: u64) -> Plan {
         "C18" => c18(property, seed, index),
         "C15" => c15(property, seed, index),
         "C16" => c16(property, seed, index),
-        "C17" if index % 5 == 3 => {
+        "C17" if index % 7 == 3 => {
             // run-time delay changes with several local players: the order in which a session walks
             // its local players must not matter either
             let mut p = c11(property, seed, index);
@@ -422,7 +423,19 @@ pub fn generate(property: &str, tier: &str, seed: u64, index: u64) -> Plan {
             p.oracle.liveness = None;
             p
         }
-        "C17" if index % 5 == 4 => {
+        "C17" if index % 7 == 5 || index % 7 == 6 => {
+            // a player dies or is disconnected while the host serves a spectator: the spectator's
+            // stream is assembled per frame from all players' inputs, dead ones included, and must
+            // not depend on the order in which a map yields them
+            let mut p = if index % 7 == 5 { c07(property, seed) } else { c06(property, seed) };
+            p.scenario = format!("c17-{}", p.scenario);
+            p.cfg.clock_bump_us = 0;
+            p.oracle.liveness = None;
+            p.oracle.lifecycle_timing = false;
+            p.injects.clear();
+            p
+        }
+        "C17" if index % 7 == 4 => {
             // a really diverging game with detection on: several mismatching reports can be pending
             // at once, and the order in which they are reported must not depend on hash order either
             let mut p = c09(property, seed, 1);
@@ -940,6 +953,21 @@ pub fn c07(property: &str, seed: u64) -> Plan {
         }
     }
     p.oracle.liveness = Some(Liveness { heal_us: heal, deadline_us: heal + ms(2000), min_frames: 8, require_running: false, nodes: live, spectator_lag: false });
+    // crash and restart: the dead peer's program is launched again on the same address. The new
+    // instance has another magic number, asks for a handshake every 200 ms and answers nothing it
+    // recognises; to the survivor it is foreign traffic from a known address, and the old
+    // connection must time out exactly as if the address had fallen silent
+    if p.nodes[1].tick.stop_us.is_some() && c.chance(&[17], 400_000) {
+        let mut t = t_kill + c.range(&[18], ms(50), ms(900));
+        let mut j = 0u64;
+        while t < p.horizon_us {
+            let body = if c.chance(&[19, j], 800_000) { MBody::SyncRequest { random_request: c.u(&[20, j]) as u32 } } else { forged_body(&c, 1000 + j, p.cfg.num_players) };
+            p.injects.push(Inject { at_us: t, to: 0, from_addr: 1, payload: Payload::Msg { magic: MagicSel::Wrong, body } });
+            t += ms(200) + c.range(&[21, j], 0, ms(20));
+            j += 1;
+        }
+        p.scenario = format!("{}+relaunch", p.scenario);
+    }
     p
 }
 
@@ -990,6 +1018,28 @@ pub fn c12(property: &str, seed: u64, index: u64) -> Plan {
             }
             p.horizon_us = t + ms(1500);
             p.oracle.lifecycle_timing = true;
+            p
+        }
+        4 => {
+            // a spectator that stops acknowledging is cut loose at the 128-input cap, not by the timer:
+            // exactly one Disconnected for its address, also when a lossy, jittery link to the other
+            // player makes several frames confirm (and go out to the spectator) within one call
+            let mut p = s1(property, "c12-spectator-cut-at-cap", seed, &S1Opts { max_peers: 2, force_spectators: true, frames_lo: 500, frames_hi: 1200, long_run_pct: 0, ..Default::default() });
+            let n = p.nodes.len();
+            for i in 0..n {
+                if let NodeKind::Spectator { host, .. } = p.nodes[i].kind {
+                    let at = c.range(&[30, i as u64], ms(300), p.horizon_us / 2);
+                    if c.chance(&[31, i as u64], 500_000) {
+                        p.nodes[i].tick.stop_us = Some(at);
+                    } else {
+                        // it keeps running but nothing it sends gets through any more
+                        p.windows.push(Window { from: i, to: host, start_us: at, end_us: u64::MAX / 2, kinds: ALL_KINDS, action: WinAction::Drop });
+                    }
+                }
+            }
+            p.cfg.timeout_ms = 60_000;
+            p.cfg.notify_ms = 20_000;
+            p.oracle.liveness = None;
             p
         }
         _ => {
@@ -1181,7 +1231,11 @@ fn c08_live(property: &str, seed: u64, index: u64) -> Plan {
         while crate::sweep::declared_len(&random_bytes).is_some_and(|n| n > crate::alloc::LIMIT as u128) {
             random_bytes.pop();
         }
-        let kind = if death { c.range(&[11, j], 6, 8) } else { c.range(&[11, j], 0, 8) };
+        // with a death in the run only forgeries that draw no reply at all are used (wrong magic,
+        // unknown address): where the survivors cut the dead player off depends on timing, and a
+        // forgery the endpoint answers (an extra acknowledgement) legitimately shifts timing
+        let kind = if death { c.range(&[11, j], 6, 8) } else { c.range(&[11, j], 0, 9) };
+        let my_spectators: Vec<usize> = p.nodes.iter().enumerate().filter(|(_, x)| matches!(x.kind, NodeKind::Spectator { host, .. } if host == to)).map(|(i, _)| i).collect();
         let (from_addr, payload) = match kind {
             0 => (real_from, Payload::MutateLastInput(InputMutation::StatusCount((np + 1 + c.range(&[12, j], 0, 2) as usize) % (np + 3)))),
             1 => (
@@ -1211,6 +1265,20 @@ fn c08_live(property: &str, seed: u64, index: u64) -> Plan {
             ),
             5 => (real_from, Payload::Raw((0..c.range(&[17, j], 0, 40)).map(|b| c.u(&[18, j, b]) as u8).collect())),
             6 => (real_from, Payload::Msg { magic: MagicSel::Wrong, body: forged_body(&c, j, np) }),
+            // a spectator has no business sending inputs: a well-formed input packet from its address
+            // (right magic, one player's worth of bytes per frame) must be ignored like any other
+            // packet that does not belong
+            9 if !my_spectators.is_empty() => {
+                let frames: Vec<Vec<u8>> = (0..c.range(&[30, j], 1, 4)).map(|f| (0..4).map(|b| c.u(&[31, j, f, b]) as u8).collect()).collect();
+                let conn = (0..np).map(|_| MConn { disconnected: false, last_frame: -1 }).collect::<Vec<_>>();
+                (
+                    my_spectators[c.range(&[32, j], 0, my_spectators.len() as u64 - 1) as usize] as u16,
+                    Payload::Msg {
+                        magic: MagicSel::Real,
+                        body: MBody::Input(MInput { peer_connect_status: conn, disconnect_requested: false, start_frame: c.range(&[33, j], 0, 2) as i32, ack_frame: -1, bytes: ggrs::verif::encode(&[0, 0, 0, 0], &frames) }),
+                    },
+                )
+            }
             7 => (1000 + (j as u16 % 50), Payload::Msg { magic: *c.pick(&[19, j], &[MagicSel::Real, MagicSel::Wrong, MagicSel::Zero]), body: forged_body(&c, j, np) }),
             _ => (1000 + (j as u16 % 50), Payload::Raw((0..c.range(&[20, j], 0, 40)).map(|b| c.u(&[21, j, b]) as u8).collect())),
         };
@@ -1290,15 +1358,36 @@ pub fn c10(property: &str, seed: u64) -> Plan {
         n.tick.period_us = per;
         n.tick.jitter_us = n.tick.jitter_us.min(per / 2);
     }
+    let same_cut = c.chance(&[17], 500_000);
     for &s in &peers {
         if s == v {
             continue;
         }
         // the split of the dying peer's last packets
-        let back = if c.chance(&[4, s as u64], 300_000) { 0 } else { c.range(&[5, s as u64], 0, ms(150)) };
+        // in half of the runs the cut is at the same instant on every link: all survivors hold the
+        // same amount (the recorded finding needs a split; everything else must hold without one)
+        let back = if same_cut {
+            c.range(&[5], 0, ms(150))
+        } else if c.chance(&[4, s as u64], 300_000) {
+            0
+        } else {
+            c.range(&[5, s as u64], 0, ms(150))
+        };
         p.windows.push(Window { from: v, to: s, start_us: t_kill.saturating_sub(back), end_us: t_kill + ms(50), kinds: ALL_KINDS, action: WinAction::Drop });
     }
     let survivors: Vec<usize> = peers.iter().copied().filter(|&s| s != v).collect();
+    // stragglers: the dying peer's last packets towards one survivor are not lost but held up in
+    // the network for longer than the disconnect timeout, and arrive when that survivor has already
+    // cut the peer off (its endpoint lingers for 5 s before it shuts down)
+    if c.chance(&[13], 300_000) {
+        let s = survivors[c.range(&[14], 0, survivors.len() as u64 - 1) as usize];
+        let hold = ms(p.cfg.timeout_ms + c.range(&[15], 100, 2500));
+        for w in p.windows.iter_mut().filter(|w| w.from == v && w.to == s) {
+            w.action = WinAction::Delay(hold);
+            w.start_us = w.start_us.min(t_kill.saturating_sub(ms(c.range(&[16], 20, 200))));
+        }
+        p.scenario = "c10+stragglers".into();
+    }
     // survivors may notice the death at different instants for other reasons than a split: their
     // own timeouts differ, or a short loss burst between two survivors (they stay connected: the
     // burst is far shorter than any timeout) delays the gossip
